@@ -523,7 +523,7 @@ func runC08(a *Args) error {
 	rng := NewRng(a.Seed)
 	prelude := "From NV Require Import Base C08_Model.\nOpen Scope string_scope.\n"
 	w := NewCaseWriter(a, "C08", prelude, "case", "run")
-	w.Rule = "OCI: documents of 1-4 statements over a scope alphabet of nested / sibling / port-qualified / case-variant / near-identical repository paths (with and without a wildcard statement, plus documents violating one validity rule), every permutation of the statements, references = every listed scope, prefix / extension / sibling / case / port variants of listed scopes, unlisted scopes, tag-only, tag+digest, several '@', malformed; blob: documents over a name alphabet (case / blank-padded / prefix variants), every permutation, queries by listed / near-miss / blank (ASCII and Unicode white space) names and for the global statement; fuzzed registry/repository strings against a wildcard-only document. After the first selection the driver writes through the statement it received (all slices, override map, scalar fields, appends) and selects again; for accepted documents a third of the cases also run SkipVerify / Verify / VerifyBlob with a genuine envelope. non-trivial = the query is not refused as malformed and (the document has >= 2 statements or the result was written through); distinct = distinct (document order, queries, writes) tuples; ADDED: empty slices / maps of the document as nil or as empty non-nil objects (a third of all cases + a fixed family); the matching scope at every position of a 3-4 scope statement x every permutation of the document; rarely used legal registry / repository / digest syntax; HISTORIES: one long-lived document object and one long-lived verifier answering 5-8 calls in sequence whose expected answers differ (same registry / other repository, wildcard, other registry, refused, back), each step emitted as its own case judged on its own input"
+	w.Rule = "OCI: documents of 1-4 statements over a scope alphabet of nested / sibling / port-qualified / case-variant / near-identical repository paths (with and without a wildcard statement, plus documents violating one validity rule), every permutation of the statements, references = every listed scope, prefix / extension / sibling / case / port variants of listed scopes, unlisted scopes, tag-only, tag+digest, several '@', malformed; blob: documents over a name alphabet (case / blank-padded / prefix variants), every permutation, queries by listed / near-miss / blank (ASCII and Unicode white space) names and for the global statement; fuzzed registry/repository strings against a wildcard-only document. After the first selection the driver writes through the statement it received (all slices, override map, scalar fields, appends) and selects again; for accepted documents a third of the cases also run SkipVerify / Verify / VerifyBlob with a genuine envelope. non-trivial = the query is not refused as malformed and (the document has >= 2 statements or the result was written through); distinct = distinct (document order, queries, writes) tuples; ADDED: empty slices / maps of the document as nil or as empty non-nil objects (a third of all cases + a fixed family); the matching scope at every position of a 3-4 scope statement x every permutation of the document; rarely used legal registry / repository / digest syntax; HISTORIES: one long-lived document object and one long-lived verifier answering 5-8 calls in sequence whose expected answers differ (same registry / other repository, wildcard, other registry, refused, back), each step emitted as its own case judged on its own input; BLANK-NAMED: blob documents accepted by Validate() that contain a statement whose name is white space only, asked for exactly that name (witness of C08_blob_name_full_refuted: refused with error 4)"
 	w.Assumptions = []string{
 		"error classes of the selection functions are recognised from stable tokens of their messages",
 		"the statement the verifier used is recognised from the first trust store of type ca it asks the injected trust store for (x509 signing scheme, genuine JWS envelope); statements are given distinct first ca stores",
@@ -626,6 +626,10 @@ func runC08(a *Args) error {
 			w.Count("first_result", fmt.Sprintf("error %d", r1.code))
 		} else {
 			w.Count("first_result", "statement")
+		}
+		if c.Family == "blank-named" && c.Q1.Kind == "name" && strings.TrimSpace(c.Q1.Arg) == "" && c.Q1.Arg != "" {
+			// the document lists a statement of exactly this name
+			w.Count("blank_named_own_name", fmt.Sprintf("Validate accepted=%v, result=%s, verifier=%s", c.Accepted, Short(r1.desc, 40), vd))
 		}
 		w.Count("writes", fmt.Sprint(len(script)))
 		w.Count("verifier", strings.SplitN(vd, ":", 2)[0])
@@ -1213,6 +1217,21 @@ func runC08(a *Args) error {
 				scripts = append(scripts, pickScriptH(r, true))
 			}
 			runHistory("history-blob", true, d, r.Chance(1, 3), qs, scripts, true)
+		}
+	}
+	// ---- family 8 (theorem audit): the witness of C08_blob_name_full_refuted /
+	// C08_blank_named_statement_refuted on the real code — a blob document that Validate()
+	// accepts, with a statement whose name is white space only, asked for exactly that name ----
+	{
+		for _, bn := range []string{" ", "\t", "\xc2\xa0", " \n "} {
+			bd := []stmtD{{Name: bn, Level: "strict", Stores: []string{"ca:k0"}, Ids: []string{"*"}},
+				{Name: "g", Level: "strict", Stores: []string{"ca:k1"}, Ids: []string{"*"}, Global: true}}
+			for pi, p := range permutations(2) {
+				d := permute(bd, p)
+				for _, q := range []queryD{{"name", bn}, {"name", "g"}, {"global", ""}, {"name", ""}} {
+					runCase(&caseD{Family: "blank-named", Blob: true, Doc: d, Q1: q, Q2: queryD{"name", bn}, Rep: pi == 1, Ver: true})
+				}
+			}
 		}
 	}
 	_ = sort.Strings
